@@ -164,20 +164,27 @@ TTree ==
          N == Len(nodes)
          lvl[i \in 1..N] == IF par[i] = 0 THEN 1 ELSE 1 + lvl[par[i]]
          judge == (cs.gp \/ (cs.rect /\ cs.sp2)) /\ a.lat
+         \* nodes whose level differs from their containment depth, and the class of known finding S13: each of them shares a boundary
+         \* point with a ring that contains it (an island touching the hole it lies in is attached to the wrong parent)
+         mis == {i \in 1..N : Depth(nodes, i) + 1 # lvl[i]}
+         RingsTouch(P, Q) == \E x \in 1..Len(P) : \E y \in 1..Len(Q) : SegMeet(<<P[x], Nxt(P, x)>>, <<Q[y], Nxt(Q, y)>>)
+         touchClass == mis # {} /\ \A i \in mis : \E j \in 1..N : j # i /\ InsideRing(nodes[i], nodes[j]) /\ RingsTouch(nodes[i], nodes[j])
      IN /\ Chk(Ev.ok = 1, "C11", "execute_returned_false", Ev.k)
         /\ a.lat => Chk(SameRings(a.paths, nodes), "C04", "tree_paths_differ", Ev.k)
         /\ Chk(Ev.openeq = 1, "C04", "open_paths_differ", Ev.k)
         /\ judge =>
              /\ Chk(Area2Set(nodes) = a.area2, "C04", "area", Ev.k)
-             /\ Chk(\A i \in 1..N : (Area2(nodes[i]) > 0) = ((lvl[i] % 2 = 1) = (rs = 0)), "C04", "level_orientation", Ev.k)
-             /\ Chk(\A i \in 1..N : par[i] # 0 => InsideRing(nodes[i], nodes[par[i]]), "C04", "child_not_in_parent", Ev.k)
-             /\ Chk(\A i \in 1..N : \A j \in 1..N : (i # j /\ par[i] = par[j]) => ~InsideRing(nodes[i], nodes[j]), "C04", "inside_sibling", Ev.k)
-             /\ Chk(\A i \in 1..N : par[i] # 0 =>
-                       ~\E e \in {PEdges(nodes[i])[x] : x \in 1..Len(nodes[i])} :
-                          \E f \in {PEdges(nodes[par[i]])[x] : x \in 1..Len(nodes[par[i]])} : ProperCross(e, f),
-                    "C04", "child_crosses_parent", Ev.k)
-             \* depth of a node = number of rings it is inside (independent nesting oracle)
-             /\ Chk(\A i \in 1..N : Depth(nodes, i) + 1 = lvl[i], "C04", "level_vs_containment", Ev.k)
+             /\ IF touchClass THEN Report("C04", "nesting_wrong_for_ring_touching_its_container", Ev.k)
+                ELSE
+                  /\ Chk(\A i \in 1..N : (Area2(nodes[i]) > 0) = ((lvl[i] % 2 = 1) = (rs = 0)), "C04", "level_orientation", Ev.k)
+                  /\ Chk(\A i \in 1..N : par[i] # 0 => InsideRing(nodes[i], nodes[par[i]]), "C04", "child_not_in_parent", Ev.k)
+                  /\ Chk(\A i \in 1..N : \A j \in 1..N : (i # j /\ par[i] = par[j]) => ~InsideRing(nodes[i], nodes[j]), "C04", "inside_sibling", Ev.k)
+                  /\ Chk(\A i \in 1..N : par[i] # 0 =>
+                            ~\E e \in {PEdges(nodes[i])[x] : x \in 1..Len(nodes[i])} :
+                               \E f \in {PEdges(nodes[par[i]])[x] : x \in 1..Len(nodes[par[i]])} : ProperCross(e, f),
+                         "C04", "child_crosses_parent", Ev.k)
+                  \* depth of a node = number of rings it is inside (independent nesting oracle)
+                  /\ Chk(mis = {}, "C04", "level_vs_containment", Ev.k)
 
 (* the harness runs every case in a child process; a child that was killed (signal, sanitizer, timeout)  *)
 (* leaves a Crash event: the call did not return, so no postcondition can hold                          *)
